@@ -420,7 +420,9 @@ class Compatibility(Updatable):
 
     def shared_loop_index(self, live_tensors: set[str]) -> int:
         n = [l for t, l in self.get_backing_levels().items() if t in live_tensors]
-        return max(n) - 1 if n else -1
+        # Persistent tensors are backed at level -1 (above all loops); there is still
+        # no shared loop, which is index -1.
+        return max(max(n) - 1, -1) if n else -1
 
     def __len__(self) -> int:
         return self.max_above_loop_index
